@@ -340,20 +340,31 @@ func VP_C18_ext4_dir_linear_wellformed() {
 // VP_C18_ext4_dir_checksummed: with metadata checksums the data is cut into blocks of blocksize bytes;
 // the data length comes from the inode's size field and need not be a multiple of the block size.
 func VP_C18_ext4_dir_checksummed() {
+	const bs = 24
 	n := vp.Int("n")
 	vp.Assume(n >= 0)
-	vp.Assume(n <= 48)
-	all := vp.Bytes("dir", 48)
+	vp.Assume(n <= 2*bs)
+	all := vp.Bytes("dir", 2*bs)
+	seed := vp.U32("seed")
+	// every block carries the checksum of its own content (computed by the code's own function, so that
+	// the comparison succeeds natively as well as under the congruent CRC model)
+	// and one well-formed 12-byte record (record lengths are the subject of the harnesses without
+	// checksums; behind the checksum stripping the data lives in an append()ed buffer whose spare
+	// capacity is a property of the Go runtime, not of the image)
+	for k := 0; k < 2; k++ {
+		blk := all[k*bs : (k+1)*bs]
+		blk[4], blk[5] = 12, 0
+		vp.Assume(blk[6] <= 4)
+		binary.LittleEndian.PutUint32(blk[bs-4:], directoryChecksummer(seed, 2, 0)(blk[:bs-12]))
+	}
 	b := all[:n:n]
 	vp.Unwind(10)
-	if n%24 != 0 {
+	if n%bs != 0 {
 		// KF-C18-14: directory size not a multiple of the block size
 		vp.KnownPanic("KF-C18-14", "ext4.parseDirEntriesLinear)")
 	}
-	vp.KnownPanic("KF-C18-13", "ext4.parseDirEntriesLinear)")
-	vp.KnownPanic("KF-C18-13", "ext4.directoryEntryFromBytes)")
 	vp.NoPanic()
-	_, err := parseDirEntriesLinear(b, true, 24, 2, 0, vp.U32("seed"))
+	_, err := parseDirEntriesLinear(b, true, bs, 2, 0, seed)
 	vp.AllowPanic()
 	if err == nil {
 		vp.Cover("checksummed blocks accepted")
